@@ -1,8 +1,7 @@
 """C18 — the reachability analysis is conservative (engine P).
 Same dispatch family as C12 (incl. the shapes named by the property: function passed as argument of a deferred/go
 call, method callable only after an interface-to-interface assertion, method values/expressions, function stored in a
-global by init, generic instantiations). Oracle: every natively executed function is in FindReachable (all roots and
--noinit); every function reachable in the pointer call graph is in FindReachable; FindReachable is a subset of all
+global by init, generic instantiations). Oracle: every natively executed function is in FindReachable (all roots); every function reachable in the pointer call graph is in FindReachable; FindReachable is a subset of all
 functions; excluding roots shrinks the set monotonically."""
 import sys
 sys.path.insert(0, '/verif/lib'); sys.path.insert(0, '/verif/checks')
@@ -28,7 +27,7 @@ def main(tier):
             rep.fail(r['sig'] + ' / panic', r['atoms'] + ['panic'], dict(sig=r['sig'], panic=r['panic']))
             continue
         executed, calls = dispfam.events_of(truth[r['idx']])
-        for sel in ('all', 'noinit'):
+        for sel in ('all',):  # with roots excluded the native run (which starts at main after init) demands nothing
             found = set(r['find'].get(sel) or [])
             for f in executed:
                 evals += 1
